@@ -52,6 +52,8 @@ THEOREMS = [
     "OllamaVerif.C12.rerun_converges_pull_partial",
     "OllamaVerif.C12.atomic_never_torn_run",
     "OllamaVerif.C12.rerun_converges_pull",
+    "OllamaVerif.C12.prune_clears_partials",
+    "OllamaVerif.C12.F26_blind_lister_prunes_every_blob",
     "OllamaVerif.C12.F19a_replaced_model_lost",
     "OllamaVerif.C12.F19b_torn_part_record_blocks_repull",
 ]
@@ -112,7 +114,12 @@ def run(ctx):
         "multi-part pulls are covered by real kill enumeration + L2 monitors only",
         "debris of earlier pulls is consistent (PartOK/PullPre): evaluated on the real files of every crash state of a "
         "pull (debris-inconsistent monitor)",
-        "directories are not modelled (MkdirAll / PruneDirectory only add/remove empty directories)",
+        "directories are not modelled (MkdirAll / PruneDirectory only add/remove empty directories); symbolic links to "
+        "directories are transparent in the model because the unchanged code follows them everywhere (Glob+Stat lister, "
+        "open by name, ReadDir of blobs/): tied by exact L1 (effects, crash state, state after start-up) on stores with "
+        "symlinked model / host / blobs / manifests directories, and by L2 on names resolved BY NAME",
+        "the models path contains no glob metacharacter (otherwise F26: the lister is blind; mirrored as pruneBlind with a "
+        "Lean witness, exercised on the real code as an L2-only scenario)",
     ]
     return ctx.finish(
         level="proof",
@@ -120,7 +127,10 @@ def run(ctx):
              "unlink, chmod, copy_file_range, mkdir, rmdir) of one operation run in a child process on a prepared "
              "store (2-3 models sharing layers; stores with a torn manifest and with real partial-download debris; "
              "the same operations under OLLAMA_NOPRUNE=1; one 2-part pull of a 100 MB + 40..90 byte layer whose part 1 "
-             "completes before part 0 starts, body writes sampled first/middle/last); distinct = distinct oracle "
+             "completes before part 0 starts, body writes sampled, under NOPRUNE and under the default configuration; "
+             "store SHAPES: model directory / host directory / blobs and manifests directories as symbolic links, "
+             "files at depth 2 and 5 under manifests/, an empty model directory, junk in blobs/ and in the models "
+             "directory, a models path containing `[`); distinct = distinct oracle "
              "command lines (effects / crash-state / rerun)",
         explanation="Lean theorems over the effect-list model; L1: the real syscall trace of each operation, the real "
                     "store after each kill and the real outcome of the repeated operation equal the model's effect "
